@@ -77,7 +77,7 @@ CHECKS["C13"] = dict(
 CHECKS["C03"] = dict(
     level="exploration",
     rule=("C03Init: role-consistent initiator histories (8 variants by index: both completion signals in both orders, with/without a preceding paused Complete, late "
-          "acceptance, duplicated signals, a single signal only, never-accepted local finish) with PRNG bookkeeping noise between all steps; trace predicates over "
+          "acceptance, duplicated signals, a single signal only or a longer ONE-SIDED history that repeats/interleaves one side's signal with paused Completes (12 shapes, must not complete), never-accepted local finish) with PRNG bookkeeping noise between all steps; trace predicates over "
           "the snapshot stream: P1 Completing only after both signals, P2 both signals => Completed at quiescence, P3 bookkeeping never changes status (except the "
           "named release from Finalizing), P4 lifecycle never changes counters/pause flags/vouchers/limits. C03Resp: responder histories with and without finalization "
           "(stays Finalizing and reports paused under noise until ResumeResponder, then completes). C03Step: single-step product over injected version-3 records: "
@@ -89,7 +89,7 @@ CHECKS["C03"] = dict(
         dict(test="TestC03Step", quick=112, thorough=1120, per_shard=8),
         dict(test="TestC03Mgr", quick=96, thorough=4800, per_shard=12),
     ],
-    floors=dict(any={"TestC03Init.both_signals_cases": 100, "TestC03Init.never_accepted_cases": 10, "TestC03Resp.finalizing_cases": 20,
+    floors=dict(any={"TestC03Init.both_signals_cases": 100, "TestC03Init.never_accepted_cases": 10, "TestC03Init.one_sided_histories": 8, "TestC03Resp.finalizing_cases": 20,
                      "TestC03Resp.release_from_finalizing": 20, "TestC03Step.steps_applied": 4000, "TestC03Mgr.holding_updates": 80, "TestC03Mgr.manager_releases": 60, "TestC03Mgr.completion_reported_again_while_finalizing": 20}),
     assumptions=["event classes (lifecycle/bookkeeping/ending) are read off the property statement, see chk/hist_test.go eventClass"],
 )
